@@ -379,9 +379,11 @@ def run_ledger(run, scr, prop, tier):
         apa = None
         if prop == "C01":
             apa = []
+            # (the model checker's parser unpacks the standard modules into java.io.tmpdir: keep that inside the scratch directory)
+            aenv = dict(os.environ, TMPDIR=wd, JAVA_TOOL_OPTIONS=("-Djava.io.tmpdir=%s " % wd + os.environ.get("JAVA_TOOL_OPTIONS", "")).strip())
             for args in (["--init=Init", "--length=0"], ["--init=IndInv", "--length=1"]):
                 a = subprocess.run(["timeout", "300", "apalache-mc", "check", "--cinit=CInit", "--inv=IndInv", "--out-dir=" + os.path.join(wd, "apa")] + args +
-                                   ["MC_SlotLedgerU.tla"], cwd=SPEC_DIR, stdout=subprocess.PIPE, stderr=subprocess.STDOUT, text=True)
+                                   ["MC_SlotLedgerU.tla"], cwd=SPEC_DIR, env=aenv, stdout=subprocess.PIPE, stderr=subprocess.STDOUT, text=True)
                 apa.append("NoError" if "The outcome is: NoError" in a.stdout else ("timeout" if a.returncode == 124 else "FAILED"))
             shutil.rmtree(os.path.join(SPEC_DIR, "_apalache-out"), ignore_errors=True)
     finally:
